@@ -169,6 +169,9 @@ class Sim:
         """Close the operation for one variant (after the global collect step)."""
         env = r["env"]
         r["log"] = list(env.log)
+        # final state of the module globals the programs may write (C01)
+        g = {k: canon(self.v[vn].mod.__dict__.get(k)) for k in ("G0", "G1")}
+        r["log"].append(["globals", "", g])
         for k, kind, f in env.fired:
             if vn == "sys":
                 d = self.stats["faults_fired"]
